@@ -169,7 +169,7 @@ def c13(tier, seed):
             if o["verdict"] == "unsat":
                 n_dis += 1
             elif o["verdict"] == "sat":
-                mode = "same-acceptance" if o["name"] == "letter-case" else "same"
+                mode = "same-acceptance" if o["name"] == "letter-case" else ("second-rejected" if o["name"] == "stray-token-rejected" else "same")
                 rec = {"id": "cx", "base": "2024-01-10", "lines": [], "opts": {"texts": [o["a"], o["b"]], "mode": mode}, "values": {}}
                 rr = symx.run_replay("C13parse", [rec], "c13cx")[0]
                 replayed += 1
@@ -185,7 +185,7 @@ def c13(tier, seed):
             else:
                 inconclusive.append(f"obligation {o['name']}/{r['keyword']} undecided ({o['verdict']} after {o['s']}s)")
         done = {o["name"] for o in r["obligations"]}
-        if len(done) < r.get("planned", 7):
+        if len(done) < r.get("planned", 8):
             inconclusive.append(f"worker {r['keyword']} {r.get('part')} finished only {len(done)} of {r.get('planned')} obligations")
     wall = time.time() - t0
     ev = {
@@ -198,7 +198,7 @@ def c13(tier, seed):
             "counterexamples_replayed": replayed, "counterexamples_reproduced": reproduced,
             "solver_chosen_lines_with_variants_through_real_parser": len(ex_pairs), "of_which_parsed_differently": len(ex_bad),
             "functions_encoded": ["crates/cgt-core/src/parser.pest (every rule, read through pest_meta's own parser)", "match_nodes! arms of crates/cgt-core/src/parser.rs (pest_consume node matching)"],
-            "bounds": f"(DIVIDEND: letter case and trailing comment also at length <= 36 in the quick tier) all byte strings (bytes < 0x80) of length <= {L} that start with the date 2024-01-01, one of the keywords {kws} in any letter case and a blank, and contain no line break or '#'; related to a second string by one lexical edit: appended ' #x' comment, one more space/tab at a symbolic position, upper-casing, appended LF / CR / CRLF, a preceding full-line comment, a preceding blank line",
+            "bounds": f"(DIVIDEND: letter case and trailing comment also at length <= 36 in the quick tier) all byte strings (bytes < 0x80) of length <= {L} that start with the date 2024-01-01, one of the keywords {kws} in any letter case and a blank, and contain no line break or '#'; related to a second string by one lexical edit: appended ' #x' comment, one more space/tab at a symbolic position, upper-casing, appended LF / CR / CRLF, a preceding full-line comment, a preceding blank line; and an appended stray ' @' must make it rejected",
             "outside_claim": ["lines longer than the bound (ACCUMULATION/CAPRETURN need the thorough tier)", "dates other than the fixed literal", "bytes >= 0x80", "rejection of corrupted text with the error on the offending line", "semantic actions other than node matching (decimal/currency/date conversion)"],
             "solver": "z3 5.1 (QF_BV), one process per keyword", "solver_seconds": round(sum(o["s"] for r in results for o in r.get("obligations", [])), 1),
             "encode_seconds": [r.get("encode_s") for r in results],
